@@ -53,11 +53,13 @@ def op_text(o):
     return "%s:%s:%s" % (o["op"], ",".join(str(x) for x in o["p"]), ",".join(str(x) for x in o["a"]))
 
 
-def scenario(name, shape, cycles, end, late=2, rr=True):
+def scenario(name, shape, cycles, end, late=2, rr=True, activity=None):
     """cycles: {t: [ops]} (an empty list = the writer is evaluated and does nothing)"""
     lines = ["scn " + name, "shape " + shape, "opt end=%d late=%d rr=%d" % (end, late, 1 if rr else 0)]
     for t in sorted(cycles):
         lines.append(("c %d " % t + " ".join(op_text(o) for o in cycles[t])).rstrip())
+    for t in sorted(activity or {}):      # run-time make_active / make_passive of child links of the un-peered probe inputs
+        lines.append("a %d " % t + " ".join(op_text(o) for o in activity[t]))
     lines.append("run")
     return "\n".join(lines)
 
@@ -191,13 +193,31 @@ def has_write_erase_write(cycles):
 
 
 class Case:
-    def __init__(self, name, shape, cycles, end, late, rr, origin, predicted=None):
+    def __init__(self, name, shape, cycles, end, late, rr, origin, predicted=None, activity=None):
         self.name, self.shape, self.cycles, self.end, self.late, self.rr, self.origin = name, shape, cycles, end, late, rr, origin
         self.predicted = predicted
-        self.scn = scenario(name, shape, cycles, end, late, rr)
+        self.scn = scenario(name, shape, cycles, end, late, rr, activity)
         self.events = None
         self.has_inv = any(o["op"] == "inv" for ops in cycles.values() for o in ops)
         self.f2 = has_write_erase_write(cycles)
+
+
+def unpeered_cases(rng, n):
+    """an un-peered bundle INPUT (assembled from two scalar outputs) read by probes that activate / passivate the child links at
+    run time while being woken by their own scheduler: the parent's flags must follow the children whatever the links' activity"""
+    cases = []
+    for i in range(n):
+        horizon = rng.randint(4, 8)
+        cyc, act = {}, {}
+        for t in range(1, horizon + 1):
+            ops = [op("set", (c,), (rng.randint(0, 3),)) for c in (0, 1) if rng.random() < 0.45]
+            if ops:
+                cyc[t] = ops
+            tog = [op("act" if rng.random() < 0.55 else "pas", (), (c,)) for c in (0, 1) if rng.random() < 0.3]
+            if tog:
+                act[t] = tog
+        cases.append(Case("unp%d" % i, "UTSB", cyc, horizon, rng.randint(1, 3), False, "random-unpeered", activity=act))
+    return cases
 
 
 def invalidation_cases(rng, n):
@@ -214,7 +234,7 @@ def invalidation_cases(rng, n):
 
 def random_cases(rng, n, tier):
     cases = []
-    shapes = list(SHAPES)
+    shapes = [x for x in SHAPES if x != "UTSB"]
     for i in range(n):
         shape = shapes[i % len(shapes)]
         big = tier == "thorough" and i % 3 == 0
@@ -412,6 +432,7 @@ def main():
     # 2. op-dense random scripts over the whole shape menu (nested shapes, invalidations, slot growth / reuse in thorough)
     cases += random_cases(rng, 250 if quick else 6000, chk.tier)
     cases += invalidation_cases(rng, 60 if quick else 1500)
+    cases += unpeered_cases(rng, 40 if quick else 1000)
     if pid == "C20":
         cases = [c for c in cases if c.rr and not c.has_inv]
     traces = hg.run_driver("coll", [c.scn for c in cases])
